@@ -22,7 +22,7 @@ def analyze(ctx, want):
                           (r"CompiledDfa as std::convert::From<internal::nfa::Nfa>>::from$", "nfa", "single")):
         fn = F.fn(pat)
         ctx.analysed_fn(fn)
-        ex, paths = run_fn(fn, F, LogModel(), max_paths=6000, desugar=None)   # any/find/or_insert_with are read as terms here
+        ex, paths = run_fn(fn, F, LogModel(), max_paths=6000, desugar=r"Entry::<.*>::or_insert_with", inline=r"ids::StateSetID::new$")   # any/find are read as terms here; the entry API as the two cases it stands for
         if ex.truncated:
             ctx.missing("C02.d", "path enumeration of %s truncated" % fn.name)
             continue
@@ -51,6 +51,7 @@ def analyze(ctx, want):
         # --- d3..d5 inner loop body
         body = 0
         acc_cases = set()
+        id_cases = set()
         for p in paths:
             ti = p.calls(r"HashSet::<.*>::insert$")
             gm = p.calls(r"(MultiPatternNfa|Nfa)::get_match_transitions(::<|$)")
@@ -81,11 +82,29 @@ def analyze(ctx, want):
             ob("C02.d", "%s:closure-of-the-transition-target" % tag, ok_t, "epsilon_closure(%s)" % (S.fstr(tgt) if tgt else None), fn.loc())
             tup = argval(ti[0], 1)
             ok_ins = tup[0] == "tuple" and len(tup[1]) == 3
+            to = None
             if ok_ins:
                 frm, cc, to = tup[1]
                 ok_from = "pop_front" in S.fstr(frm)
                 ok_cc = tgt is not None and S.fstr(cc) == S.fstr(tgt)[:-2] + ".0"
-                ok_to = bool(oi) and S.mentions(to, lambda x: x == oi[0][4])
+                # the id of the target closure: the one stored for it (known closure), or a fresh one that is enqueued and
+                # numbered by the current size of the map (entry().or_insert_with(..), a match on the Entry, ...)
+                i_ent = p.events.index(ent[0]) if ent else 0
+                pbs = [e for e in p.events[i_ent:] if e[0] == "call" and re.search(r"VecDeque::<.*>::push_back$", e[2])]
+                if pbs:
+                    id_cases.add("new")
+                    x = argval(pbs[-1], 1)
+                    sized = S.mentions(x, lambda y: y[0] == "app" and re.search(r"HashMap::<.*>::len$", str(y[1])) is not None)
+                    def bare(v):
+                        while v[0] in ("cast",) or (v[0] == "adt" and str(v[1]).startswith("internal::ids::") and len(v[3]) == 1):
+                            v = v[2] if v[0] == "cast" else v[3][0]
+                        return v
+                    ok_new = len(pbs) == 1 and sized and (to == x or bare(to) == bare(x) or S.mentions(to, lambda y: y == x or y == bare(x)))
+                    ob("C02.d", "%s:new-state-enqueued-and-numbered-by-the-map-size" % tag, ok_new, "push_back(%s); transition target id %s" % (S.fstr(x)[:60], S.fstr(to)[:60]), fn.loc())
+                    ok_to = ok_new
+                else:
+                    id_cases.add("known")
+                    ok_to = bool(ent) and S.mentions(to, lambda y: y == ent[0][4])
                 ok_ins = ok_from and ok_cc and ok_to
             ob("C02.d", "%s:transition-(current, class, id-of-target-closure)-recorded" % tag, bool(ok_ins), "transitions.insert(%s)" % S.fstr(tup)[:160], fn.loc(ti[0][1]))
             # id lookup keyed by the target closure
@@ -112,7 +131,7 @@ def analyze(ctx, want):
                             if ok:
                                 pv = argval(pushes[0], 1)
                                 fnf = p.calls(r"MultiPatternNfa::find_nfa$")
-                                ok = pv[0] == "tuple" and S.mentions(pv[1][0], lambda x: x == oi[0][4]) and "Nfa::terminal_id" in S.fstr(pv[1][1]) and bool(fnf) and S.fstr(fnf[0][3][1]) == S.fstr(tgt) and S.mentions(pv[1][1], lambda x: x == fnf[0][4])
+                                ok = pv[0] == "tuple" and to is not None and pv[1][0] == to and "Nfa::terminal_id" in S.fstr(pv[1][1]) and bool(fnf) and S.fstr(fnf[0][3][1]) == S.fstr(tgt) and S.mentions(pv[1][1], lambda x: x == fnf[0][4])
                             ob("C02.d", "multi:accepting-state-labelled-with-the-terminal-of-the-owning-nfa", ok, "accepting_states.push(%s)" % (S.fstr(argval(pushes[0], 1))[:140] if pushes else None), fn.loc())
                         else:
                             acc_cases.add("already")
@@ -133,7 +152,7 @@ def analyze(ctx, want):
                             acc_cases.add("already")
                         else:
                             acc_cases.add("accepting")
-                            ok = len(pushes) == 1 and S.mentions(argval(pushes[0], 1), lambda x: x == oi[0][4]) and "terminal_id" in S.fstr(argval(pushes[0], 1))
+                            ok = len(pushes) == 1 and to is not None and S.mentions(argval(pushes[0], 1), lambda x: x == to) and "terminal_id" in S.fstr(argval(pushes[0], 1))
                             ob("C02.d", "single:accepting-state-labelled-with-the-pattern-terminal", ok, "push(%s)" % (S.fstr(argval(pushes[0], 1))[:120] if pushes else None), fn.loc())
                     else:
                         acc_cases.add("non-accepting")
@@ -141,24 +160,8 @@ def analyze(ctx, want):
         if "C02.d" in want:
             ctx.floor("C02.d", "%s: inner-loop body paths" % tag, body, 2)
         ob("C02.d", "%s:acceptance-cases-complete" % tag, {"accepting", "non-accepting"} <= acc_cases, "cases %s" % sorted(acc_cases), fn.loc())
-        # --- d4 new states are enqueued exactly where they are created
-        cls = [c for c in F.closures_of(fn) if c.argc == 1 and "queue" in c.upvar_names().values()]
-        ob("C02.d", "%s:new-closures-are-created-in-one-place" % tag, len(cls) == 1, "or_insert_with closures capturing the queue: %d" % len(cls), fn.loc())
-        for c in cls:
-            ex2, ps = run_fn(c, F, LogModel(), inline=r"ids::StateSetID::new$")
-            for q in ret_paths(ps):
-                pb = q.calls(r"VecDeque::<.*>::push_back$")
-                r = q.end[1]
-                up = c.upvar_names()
-                cand_idx = [str(i) for i, n in up.items() if n == "new_state_id_candidate"]
-                ok = len(pb) == 1 and argval(pb[0], 1) == r and bool(cand_idx) and S.mentions(r, lambda x: x[0] == "field" and x[2] == cand_idx[0] and x[1] == ("sym", "arg1"))
-                ob("C02.d", "%s:new-state-enqueued-and-numbered-by-the-map-size" % tag, ok, "push_back(%s); returns %s" % (S.fstr(argval(pb[0], 1))[:60] if pb else None, S.fstr(r)[:60]), c.loc())
-        cand = False
-        for bb, i, s in fn.assigns():
-            if fn.names().get(s["p"]["l"]) == "new_state_id_candidate":
-                e = M.Prov(fn, max_depth=6).rvalue(s["rv"], 0, ())
-                cand = any(re.search(r"HashMap::<.*>::len$", x[1]) for x in M.expr_calls(e))
-        ob("C02.d", "%s:candidate-id-is-the-current-number-of-closures" % tag, cand, "new_state_id_candidate := state_map.len()", fn.loc())
+        # --- d4 both cases of the id lookup occur (a fresh closure gets a new id and is enqueued; a known one keeps its id)
+        ob("C02.d", "%s:known-and-new-closures-handled" % tag, id_cases == {"new", "known"}, "cases %s" % sorted(id_cases), fn.loc())
         # --- d6/d7 assembly of the automaton
         asm_ok = {"states": False, "trans": False, "ends": False}
         for p in paths:
